@@ -936,6 +936,11 @@ pub fn child_main(args: &Args) -> ! {
         if mode != Mode::C04 && i % 8 == 5 {
             hooks.set_failing_window("file_read", (i / 8) % 48, 1 + (i / 8) % 2);
         }
+        // and another one in eight has no memory for a decoder context the first time (or the
+        // second time) a compressed cluster is decoded; the next attempt works
+        if mode != Mode::C04 && i % 8 == 7 {
+            hooks.set_failing_window("decoder_build", (i / 8) % 2, 1);
+        }
         let fault = &faults[i as usize];
         let mut files = pristine_bytes.clone();
         let fired = fault.apply(&mut files);
@@ -1038,6 +1043,7 @@ pub fn child_main(args: &Args) -> ! {
                     "moved_after_open": moved,
                     "mmap_refused": env_faults.get("mmap").copied().unwrap_or(0),
                     "read_failed": env_faults.get("file_read").copied().unwrap_or(0),
+                    "decoder_refused": env_faults.get("decoder_build").copied().unwrap_or(0),
                     "diffs": diffs.iter().take(6).collect::<Vec<_>>(),
                     "ndiffs": diffs.len(),
                     "errs": nerr,
@@ -1532,6 +1538,10 @@ pub fn parent_main(args: &Args, mode: Mode) -> ! {
             let refused = rec["payload"]["mmap_refused"].as_u64().unwrap_or(0);
             if refused > 0 {
                 ev.fired("syscall-failure:mmap-refused", refused);
+            }
+            let dr = rec["payload"]["decoder_refused"].as_u64().unwrap_or(0);
+            if dr > 0 {
+                ev.fired("allocation-failure:decoder-context-ENOMEM", dr);
             }
             let rf = rec["payload"]["read_failed"].as_u64().unwrap_or(0);
             if rf > 0 {
